@@ -9,7 +9,7 @@ library are written in:
   of named objects (`self.size`, `self.std()`, ...) that the caller maps to Lean terms;
 * vectors  — names / attributes bound to Lean lists, `np.asarray(..) / np.array(..) / list(..)`
   (transparent), generator expressions and list comprehensions over one vector or over
-  `zip(A, B)`, element-wise `V op W`, `V op s`, `s op V`;
+  `zip(A, B)`, element-wise `V op W`, `V op s`, `s op V`, `abs(V)`, `[e] * len(V)`;
 * booleans — comparisons (`<, >, <=, >=`, `== 0`, `!= 0`), `and / or / not`,
   `any(.. for ..)`, `all(.. for ..)`; NaN behaves as in Python because the `Num` comparison of
   the executable instances is the IEEE one;
@@ -82,8 +82,11 @@ class ArrTr(ExprTr):
             return n.id in self.vecs
         if isinstance(n, ast.Attribute):
             return dotted(n) in self.vattr
-        if isinstance(n, (ast.GeneratorExp, ast.ListComp)):
+        if isinstance(n, (ast.GeneratorExp, ast.ListComp, ast.List)):
             return True
+        if isinstance(n, ast.Call) and isinstance(n.func, ast.Name) and n.func.id == "abs" \
+                and len(n.args) == 1 and not n.keywords:
+            return self.is_vec(n.args[0])
         if isinstance(n, ast.Call):
             f = n.func
             nm = f.attr if isinstance(f, ast.Attribute) else f.id if isinstance(f, ast.Name) else None
@@ -162,6 +165,16 @@ class ArrTr(ExprTr):
             if d in self.vattr:
                 return self.vattr[d]
             self.bad(n, "attribute .{} is not a known array".format(n.attr))
+        if isinstance(n, ast.Call) and isinstance(n.func, ast.Name) and n.func.id == "abs" \
+                and len(n.args) == 1 and not n.keywords:
+            return "(List.map (fun t => Num.abs t) {})".format(self.vec(n.args[0]))
+        if isinstance(n, ast.BinOp) and isinstance(n.op, ast.Mult) and isinstance(n.left, ast.List) \
+                and len(n.left.elts) == 1 and isinstance(n.right, ast.Call) \
+                and isinstance(n.right.func, ast.Name) and n.right.func.id == "len" \
+                and len(n.right.args) == 1 and not n.right.keywords:
+            # [e] * len(V)
+            return "(List.replicate ({}).length {})".format(
+                self.vec(n.right.args[0]), self.tr(n.left.elts[0]))
         if isinstance(n, ast.Call):
             f = n.func
             nm = f.attr if isinstance(f, ast.Attribute) else f.id if isinstance(f, ast.Name) else None
